@@ -34,6 +34,8 @@ func init() {
 	register(&PropDef{
 		ID: "C12", Title: "Writer emits whole blocks in write order; Flush+Wait makes written data durable", Level: "other",
 		Rules: append(writerRules("W1", "W2", "W3", "W4", "W5", "W6", "W9", "PATH-WAIT"),
+			bsize,
+			RuleDef{Name: "OWN-WRITE-ARG", What: "Writer.Write only measures, reslices and copies from its argument (shared with C01/C08; under C12 since sixth-round seed C12-h: blocks arrive whole and in order but hold bytes the caller wrote into its buffer later)", Floor: 1, Run: ruleWriteArgOwned},
 			RuleDef{Name: "PATH-BAMNEW", What: "bam.NewWriterLevel: writeHeader, Flush, Wait in this order on every path; writer returned only if Wait's error is nil", Floor: 1, Run: ruleBamNew}),
 		Explanation: "W1–W4: blocks reach the underlying writer whole, from one goroutine, in queue (= write) order for every number of compressors and completion order; W5 in the reading \"qwg.Done only after the block's bytes were handed to the underlying writer and it returned, and after a failure was latched\"; PATH-WAIT: Wait blocks on the pending-write group whenever no error is latched and then reports the latch – so Flush;Wait == nil implies every block queued before has been written; W9: after a failed block no later block is written (the delivered bytes stay a prefix); W6 the same for Close; PATH-BAMNEW the guarantee bam.NewWriter relies on.",
 		NotDecided:  "that the decoded prefix equals the written prefix byte for byte (value-level).",
